@@ -728,10 +728,24 @@ func gen(r *hx.Rng, n int, tier string) []string {
 				}
 				ops = append(ops, "txsweep "+main+" "+hx.JoinStrs(deps))
 			case 3:
-				no := r.Range(1, 20)
+				// independent per-type counts of redeemer output scripts (0..n each), shuffled
 				var outs []string
-				for j := 0; j < no; j++ {
-					outs = append(outs, hx.Pick(r, []string{"p", "w", "s", "S"}))
+				for _, k := range []string{"p", "w", "s", "S"} {
+					c := hx.Pick(r, []int{0, 0, 1, 1, 2, 3, r.Range(0, 8)})
+					for j := 0; j < c; j++ {
+						outs = append(outs, k)
+					}
+				}
+				if len(outs) == 0 {
+					outs = []string{hx.Pick(r, []string{"p", "w", "s", "S"})}
+				}
+				if r.Bool() { // grouped by type half of the time, shuffled otherwise
+					pm := r.Perm(len(outs))
+					sh := make([]string, len(outs))
+					for j, q := range pm {
+						sh[j] = outs[q]
+					}
+					outs = sh
 				}
 				ops = append(ops, fmt.Sprintf("txredeem %d %d %s", sg(), r.Intn(2), hx.JoinStrs(outs)))
 			case 4:
